@@ -626,6 +626,22 @@ pub fn run(cfg: &Cfg) {
             case_wdec(&mut out, ch, Some(&fs), "valid_seq");
         }
     }
+    // --- decode: large frames among small ones on one stream (whatever size a frame has, exactly its bytes are consumed:
+    // what follows it in the same read is the next frame), whole, in a few large reads, and in random reads
+    for _ in 0..cfg.n(12, 300) {
+        let n = r.below(4) as usize + 2;
+        let big_at = r.below(n as u64) as usize;
+        let fs: Vec<Frame> = (0..n).map(|i| if i == big_at || r.chance(1, 5) {
+            let len = *r.pick(&[40_000usize, 65_535, 65_536, 65_537, 100_000, 300_000, 1_000_000]);
+            let b = r.next() as u8;
+            match r.below(3) { 0 => Frame::BatchMessage(vec![b; len].into()), 1 => Frame::Error(ErrorPayload { code: 3, message: vec![b; len].into() }), _ => Frame::Message(MessagePayload { headers: rheaders(&mut r), message: vec![b; len].into() }) }
+        } else { rframe(&mut r) }).collect();
+        let wire: Vec<u8> = fs.iter().flat_map(|f| enc_ok(f)).collect();
+        for how in [0u64, 4, 3] {
+            let ch = chunkings(&mut r, &wire, how);
+            case_wdec(&mut out, ch, Some(&fs), "large_among_small");
+        }
+    }
     // --- decode: malformed streams
     for _ in 0..cfg.n(2500, 120_000) {
         let n = r.below(3) as usize + 1;
